@@ -1,6 +1,6 @@
 """C04 Generated code declares every entity it uses, in a valid order.
 
-Four exhaustively enumerated spaces, all run on the REAL reader / transformations
+Four exhaustively enumerated spaces (+ a fixed list of PSy layers), all run on the REAL reader / transformations
 / FortranWriter:
 
   rw   the declaration corpus of mc/gen/fprog.py (modules with access statements,
@@ -10,6 +10,8 @@ Four exhaustively enumerated spaces, all run on the REAL reader / transformation
        of a pool of inter-dependent entities, ADDED in every order;
   scp  nested Schedules carrying their own symbols for every combination of
        (scope, clashing name), in a colliding and a neutral (unique names) variant;
+  psy  GOcean and LFRic PSy layers generated from a handful of the repository's
+       test algorithm files (text-level oracle only);
   bfs  explicit-state BFS over histories of accepted symbol-adding
        transformations on 12 seed routines whose locals carry the names the
        transformations invent; state = history replayed on a fresh parse,
@@ -49,7 +51,8 @@ RULE = ("rw: every program of the fprog declaration corpus (feature sets of size
         "operations of the full alphabet (24 transformations x every matching node) "
         "and <= depth_core operations of the core alphabet on 12 seeds, a history "
         "being extended only by operations the real apply() accepted on the "
-        "colliding variant, states de-duplicated on sha1(view() + written text). "
+        "colliding variant, states de-duplicated on sha1(view() + written text); "
+        "psy: 11 algorithm files x {no DM, DM}, text-level oracle only. "
         "evaluations = texts / writer outcomes judged; non-trivial = the writer "
         "emitted text and (rw) the reader accepted the program, (ord) always, (scp) "
         "one name lives in >= 2 scopes, (bfs) the history is not empty; "
@@ -84,6 +87,19 @@ TIERS = {
     "thorough": {"depth_full": 2, "depth_core": 3, "rw_block": 100,
                  "ord_block": 250, "scp_block": 256, "bfs_block": 150},
 }
+#: generated PSy layers (text-level oracle only: the infrastructure modules are
+#: not available to the compiler); algorithm files of the repository's test suite
+PSY_FILES = {
+    "gocean1.0": ("gocean1p0", [
+        "single_invoke.f90", "nemolite2d_alg_mod.f90",
+        "multi_dependent_invoke.f90", "driver_test.f90",
+        "single_invoke_grid_props.f90"]),
+    "dynamo0.3": ("dynamo0p3", [
+        "1.1.0_single_invoke_xyoz_qr.f90", "1.2_multi_invoke.f90",
+        "1.5_single_invoke_fs.f90", "10.1_operator_nofield.f90",
+        "15.1.1_builtin_and_normal_kernel_invoke_2.f90",
+        "19.1_single_stencil.f90"]),
+}
 STUBS = ["profile_psy_data_mod"]
 KNOWN_MODULES = {"profile_psy_data_mod": {"profile_psydatatype"}}
 
@@ -97,7 +113,7 @@ def _cfg(tier):
     development runs only (recorded in bounds(); never used by registered
     commands)."""
     cfg = dict(TIERS[tier], seeds=list(core.SEED_ORDER),
-               groups=["rw", "ord", "scp", "bfs"])
+               groups=["rw", "ord", "scp", "bfs", "psy"])
     dev = os.environ.get("VERIF_C04_DEV")
     if dev:
         for part in dev.split(";"):
@@ -261,6 +277,11 @@ def cases(tier):
             yield {"key": f"scp:{start // step:05d}", "kind": "scp",
                    "tier": tier, "start": start,
                    "stop": min(total, start + step)}
+    if "psy" in cfg["groups"]:
+        for api_name, (_subdir, files) in PSY_FILES.items():
+            for fname in files:
+                yield {"key": f"psy:{api_name}:{fname}", "kind": "psy",
+                       "api": api_name, "file": fname}
     if "bfs" in cfg["groups"]:
         groups = {}
         for rec in _STATE["states"]:
@@ -325,11 +346,15 @@ def gfc_problems(text, errors):
     for line, message in errors:
         if any(ign in message for ign in IGNORED_DIAGNOSTICS):
             continue
+        src = lines[line - 1].strip() if line and line <= len(lines) else "?"
         sig = f"gfc:{gfc.slug(message)}:{','.join(gfc.names_in(message))}"
+        ent = re.search(r"::\s*([A-Za-z]\w*)", src)
+        if ent:
+            # the entity declared by the rejected line
+            sig += f"@{ent.group(1).lower()}"
         if sig in seen:
             continue
         seen.add(sig)
-        src = lines[line - 1].strip() if line and line <= len(lines) else "?"
         out.append((sig, f"gfortran -fimplicit-none -std=f2008 rejects line "
                          f"{line} ('{src}'): {message}"))
     return out
@@ -380,6 +405,8 @@ class _Batch:
             verdicts.append(found)
             for sig, msg in found:
                 pre = (classify(sig) if classify else None) or prefix
+                if isinstance(pre, tuple):
+                    pre, sig = pre
                 self.violation(
                     key, f"{pre}:{sig}",
                     f"{context}: {msg}. Written text:\n{text}", case)
@@ -625,10 +652,12 @@ def _run_bfs(case):
                           payload, cap_class)
 
         def classify(sig, psyir=psyir, text=text, captured=captured):
-            mat = re.match(r"^(?:text:undeclared|gfc:symbol-X-has-no-implicit"
+            mat = re.match(r"^(text:undeclared|gfc:symbol-X-has-no-implicit"
                            r"-type):(\w+)$", sig)
-            if mat and _in_psydata_scope(psyir, mat.group(1)):
-                return "bfs:symbol-in-psydata-region-scope"
+            if mat and _in_psydata_scope(psyir, mat.group(2)):
+                # the class test names the mechanism; the symbol's name is
+                # left out of the signature
+                return ("bfs:symbol-in-psydata-region-scope", mat.group(1))
             if captured and _declared_in_routine_and_module(text, captured):
                 return f"bfs:local-shadows-module-symbol:{captured}"
             return None
@@ -643,7 +672,54 @@ def _run_bfs(case):
     return batch, num, nontrivial, transitions + 2 * num, sample
 
 
-_RUN = {"rw": _run_rw, "ord": _run_ord, "scp": _run_scp, "bfs": _run_bfs}
+# ---- psy ----------------------------------------------------------------
+def _run_psy(case):
+    """Generated PSy layer (with and without distributed memory): oracle (2)
+    only."""
+    # pylint: disable=import-outside-toplevel
+    from psyclone.configuration import Config
+    from psyclone.errors import PSycloneError
+    from psyclone.parse.algorithm import parse
+    from psyclone.psyGen import PSyFactory
+    batch = _Batch([])
+    api_name, fname = case["api"], case["file"]
+    repo = os.environ.get("VERIF_REPO", "/repo")
+    path = os.path.join(repo, "src", "psyclone", "tests", "test_files",
+                        PSY_FILES[api_name][0], fname)
+    nontrivial = 0
+    sample = None
+    for dist_mem in (False, True):
+        key = f"psy:{api_name}:{fname}:dm={int(dist_mem)}"
+        payload = dict(case)
+        Config._instance = None
+        try:
+            Config.get().api = api_name
+            _, info = parse(path, api=api_name)
+            psy = PSyFactory(api_name,
+                             distributed_memory=dist_mem).create(info)
+            text = str(psy.gen)
+        except PSycloneError as err:
+            batch.count(f"generation-refused:{type(err).__name__}")
+            continue
+        finally:
+            Config._instance = None
+        nontrivial += 1
+        found, info = text_problems(text)
+        batch.count("emitted:INVALID" if found else "emitted:accepted")
+        for sig, msg in found:
+            batch.violation(key, f"psy:{api_name}:{fname}:{sig}",
+                            f"PSy layer generated for {fname} "
+                            f"(distributed_memory={dist_mem}): {msg}", payload)
+        if sample is None:
+            sample = {"group": "psy", "api": api_name, "file": fname,
+                      "units": info["units"],
+                      "declarations": info["declarations"],
+                      "references": info["references"]}
+    return batch, 2, nontrivial, 2, sample
+
+
+_RUN = {"rw": _run_rw, "ord": _run_ord, "scp": _run_scp, "bfs": _run_bfs,
+        "psy": _run_psy}
 
 
 def run_case(case):
@@ -675,7 +751,9 @@ def replay(case):
     if _SCRATCH is None:
         init_worker("quick")
     kind = case["kind"]
-    if kind == "rw":
+    if kind == "psy":
+        sub = case
+    elif kind == "rw":
         sub = {"kind": "rw", "progs": [case["prog"]]}
     elif kind == "ord":
         sub = {"kind": "ord", "items": [case["item"]]}
